@@ -34,6 +34,7 @@ COMPONENTS_REAL = [
     "dask.array graph construction/optimisation, GDAL warp (rasterio), pyproj",
 ]
 COMPONENTS_STUB = ["dask scheduler (DaskSim)", "uuid4 in odc.geo._dask (seeded)"]
+HAZARD_PROBES = ['geobox_sanity_mismatch', 'interior_fill_differs_non_nearest', 'recompute_kept_second']
 ASSUMPTIONS = [
     "O13.1 (exact equality) applies to same-CRS nearest-neighbour runs; on inexact grids destination centres within 1e-6 px of a source pixel edge are left out (counted)",
     "O13.2/O13.5 use a safety margin of 3 source + 3 destination pixels around the projected footprint, computed with affine/pyproj/numpy",
